@@ -28,7 +28,7 @@ from ebpfcat.ethercat import ECCmd, EtherCat, Packet, SyncManager
 from ebpfcat.terminals import AerotechBase
 
 from contracts.c11_packet import DGRAM, packet_inv
-from vc.pyvc.api import Contract, Raises, T, implies
+from vc.pyvc.api import Contract, Loop, Raises, T, implies
 
 ONFLY = T.Tuple(T.Int, T.Int, T.Enum(ECCmd))
 
@@ -127,9 +127,14 @@ def is_read(cmd):
     return v == 0 or v == 1 or v == 4 or v == 7 or v == 10
 
 
+def writers_inside(p):
+    """every recorded writer position is a byte of the frame (a datagram header)"""
+    return all(16 <= p.on_the_fly[k][0] and p.on_the_fly[k][0] < p.size for k in range(len(p.on_the_fly)))
+
+
 def sterile_inv(p):
     """class invariant of SterilePacket beyond the frame invariant"""
-    return counters_inv(p)
+    return counters_inv(p) and writers_inside(p)
 
 
 def writers_inv(p):
@@ -488,3 +493,64 @@ def uninstall():
     REGISTRY["ebpfcat.ebpfcat:SterilePacket.__init__"] = sp_init
     t_allocate.inline = False
     a_allocate.inline = False
+
+
+# ------------------------------------------------------------------- sterile()
+# C11: "a sterile copy differs only in the command byte of write datagrams,
+# which is NOP".  Packet.assemble is used through a stub that returns some frame
+# F0 (its properties are C11's assemble contract); the clause is relative to F0.
+from vc.pyvc import lib as _lib2
+from vc.pyvc.exec import Contract_ as _C2
+from vc.pyvc.types import fresh as _fresh2
+
+
+def the_frame():
+    """the frame Packet.assemble returned inside sterile() (native: unused)"""
+    return None
+
+
+@_lib2.model(the_frame)
+def _m_the_frame(ex, args, kw):
+    return ex.ghost["c11_frame"]
+
+
+class AssembleStub(_C2):
+    inline = False
+    loops = {}
+
+    def apply(self, ex, args, kwargs, frame, node):
+        import z3
+        from vc.pyvc import ops
+        p = args[0]
+        f0 = _fresh2(ex, T.Bytes, "assembled_frame")
+        size = ops.lift_int(p.fields["size"])
+        ex.assume(ops.b_len(f0.t) == z3.If(size > 46, size, 46))     # assemble.ensures[length_padded]
+        ex.ghost["c11_frame"] = f0
+        return f0
+
+
+def install_assemble_stub():
+    REGISTRY["ebpfcat.ethercat:Packet.assemble"] = AssembleStub()
+
+
+s_sterile = Contract(
+    SterilePacket.sterile,
+    params=dict(self=SPACKET, index=T.Range(-2**31, 2**31 - 1), ethertype=T.Range(0, 65535),
+                w=T.Range(0, None), q=T.Range(0, None)),
+    requires={"inv": "packet_inv(self)", "sterile": "sterile_inv(self)"},
+    loops={1: Loop(invariant={
+        "same_length": "len(ret) == len(the_frame())",
+        "writers_so_far_are_nop": "implies(w < _i, ret[self.on_the_fly[w][0]] == 0)",
+        "other_bytes_are_the_frame_s":
+            "implies(q < len(ret) and all(self.on_the_fly[k][0] != q for k in range(_i)), ret[q] == the_frame()[q])",
+        "range": "0 <= _i and _i <= len(self.on_the_fly)"},
+        modifies={"ret": T.ByteArray(), "pos": T.Int, "_": T.Int, "cmd": T.Enum(ECCmd)})},
+    ensures={
+        "same_length_as_the_frame": "len(result) == len(the_frame())",
+        "command_byte_of_every_write_datagram_is_nop":
+            "implies(w < len(self.on_the_fly), result[self.on_the_fly[w][0]] == 0)",
+        "differs_only_there":
+            "implies(q < len(result) and all(self.on_the_fly[k][0] != q for k in range(len(self.on_the_fly))), "
+            "result[q] == the_frame()[q])"},
+    modifies=[],
+    canaries={"everything_is_nop": "implies(q < len(result), result[q] == 0)"})
